@@ -31,6 +31,10 @@ type pair struct {
 	pname    []string // name of input k for the class of a lost-mark violation
 	// setval: additionally no member of the result may be marked
 	setval bool
+	// convTarget (convert family): the requested type. docs/marks.md promises that a conversion also carries the
+	// marks of nested values to the corresponding nested value "or simplifies them to marks on a container"; read
+	// weakly: every mark on a member the conversion keeps is found somewhere in the result.
+	convTarget *cty.Type
 	// extra is called on the marked run's result (spec family: spy observations)
 	extra func(c *core.Ctx, p *pair)
 }
@@ -355,6 +359,22 @@ func checkPair(c *core.Ctx, idx int64, p *pair) {
 		}
 	}
 
+	// clause 3b (conversions): marks on nested members that the conversion keeps are somewhere in the result
+	if p.convTarget != nil {
+		// which members are kept is read off the type of the result (a target with placeholders lets unification
+		// choose, and unifying object types may drop attributes)
+		rty := r0.Type()
+		want := cty.ValueMarks{}
+		keptMarks(p.marked[0], rty, want)
+		if len(want) > len(p.marked[0].Marks()) {
+			c.Count("clause:promised-kept-nested")
+			if have := mon.DeepMarks(r1); !mon.MarksSubset(want, have) {
+				c.Violate(site, "mark on a nested member that the conversion keeps is nowhere in the result", lostNestedClass(p.marked[0], rty, have), desc(),
+					fmt.Sprintf("kept members carry %s, the result carries %s; marked result %#v", marksText(want), marksText(have), r1))
+			}
+		}
+	}
+
 	// clause 4 (set constructor): no member of the set is marked
 	if p.setval {
 		c.Count("clause:setval-no-marked-member")
@@ -439,4 +459,106 @@ func markInputs(r *core.Rand, u []cty.Value) []cty.Value {
 	k := r.Intn(len(u))
 	m[k] = gen.MarkSome(r, u[k], 100, 0)
 	return m
+}
+
+// keptMarks collects into out the marks of v and of every nested member of v that a conversion to target keeps:
+// everything except what sits below an object attribute (or map key) that an object-typed target does not declare.
+func keptMarks(v cty.Value, target cty.Type, out cty.ValueMarks) {
+	keptWalk(v, target, func(m cty.ValueMarks, _ cty.Value, _ string) {
+		for k := range m {
+			out[k] = struct{}{}
+		}
+	})
+}
+
+func keptWalk(v cty.Value, target cty.Type, visit func(m cty.ValueMarks, unmarked cty.Value, tkind string)) {
+	u, m := v.Unmark()
+	if len(m) > 0 {
+		visit(m, u, kindWord(target))
+	}
+	if !u.IsKnown() || u.IsNull() {
+		return
+	}
+	ty := u.Type()
+	dyn := cty.DynamicPseudoType
+	switch {
+	case ty.IsListType() || ty.IsSetType() || ty.IsTupleType():
+		i := 0
+		for it := u.ElementIterator(); it.Next(); i++ {
+			_, ev := it.Element()
+			et := dyn
+			switch {
+			case target.IsListType() || target.IsSetType():
+				et = target.ElementType()
+			case target.IsTupleType():
+				if ets := target.TupleElementTypes(); i < len(ets) {
+					et = ets[i]
+				}
+			}
+			keptWalk(ev, et, visit)
+		}
+	case ty.IsMapType() || ty.IsObjectType():
+		for it := u.ElementIterator(); it.Next(); {
+			kv, ev := it.Element()
+			et := dyn
+			switch {
+			case target.IsMapType():
+				et = target.ElementType()
+			case target.IsObjectType():
+				ku, _ := kv.Unmark()
+				if !ku.IsKnown() || ku.IsNull() || !target.HasAttribute(ku.AsString()) {
+					continue // dropped by the conversion
+				}
+				et = target.AttributeType(ku.AsString())
+			}
+			keptWalk(ev, et, visit)
+		}
+	}
+}
+
+func kindWord(t cty.Type) string {
+	switch {
+	case t == cty.DynamicPseudoType:
+		return "dynamic"
+	case t.IsPrimitiveType():
+		return "primitive"
+	case t.IsListType():
+		return "list"
+	case t.IsSetType():
+		return "set"
+	case t.IsMapType():
+		return "map"
+	case t.IsTupleType():
+		return "tuple"
+	case t.IsObjectType():
+		return "object"
+	}
+	return "other"
+}
+
+// lostNestedClass names the first kept member whose marks are missing: what it is and what it is converted to.
+func lostNestedClass(v cty.Value, target cty.Type, have cty.ValueMarks) string {
+	cls := ""
+	top := true
+	keptWalk(v, target, func(m cty.ValueMarks, u cty.Value, tkind string) {
+		if top {
+			top = false
+			if len(v.Marks()) > 0 {
+				return
+			}
+		}
+		if cls != "" || mon.MarksSubset(m, have) {
+			return
+		}
+		switch {
+		case !u.IsKnown():
+			cls = "unknown member"
+		case u.IsNull():
+			cls = "null member"
+		default:
+			cls = "known " + kindWord(u.Type()) + " member"
+		}
+		cls += " -> " + tkind
+	})
+	return cls
 }
